@@ -164,8 +164,8 @@ func buildValue0(j J) interface{} {
 		switch rep {
 		case "mii":
 			out := map[interface{}]interface{}{}
-			for _, e := range entries {
-				kv := e.([]interface{})
+			for _, i := range permute(len(entries)) {
+				kv := entries[i].([]interface{})
 				out[kv[0].(string)] = buildValue(kv[1])
 			}
 			return out
@@ -187,8 +187,8 @@ func buildValue0(j J) interface{} {
 			}
 		}
 		out := map[string]interface{}{}
-		for _, e := range entries {
-			kv := e.([]interface{})
+		for _, i := range permute(len(entries)) {
+			kv := entries[i].([]interface{})
 			out[kv[0].(string)] = buildValue(kv[1])
 		}
 		return out
@@ -227,6 +227,22 @@ func buildValue0(j J) interface{} {
 		}
 		if rep == "val" {
 			return *cfg
+		}
+		return cfg
+	}
+	if c, ok := j["cm"]; ok {
+		// a *Config that is itself the product of merges (may carry keys and list entries at one node)
+		cj := c.(map[string]interface{})
+		cfg, err := ucfg.NewFrom(buildValue(cj["a"]), buildOpts(cj["optsA"])...)
+		if err != nil {
+			panic("harness: merged config source does not normalize: " + err.Error())
+		}
+		steps, _ := cj["steps"].([]interface{})
+		for _, st := range steps {
+			sm := st.(map[string]interface{})
+			if err := cfg.Merge(buildValue(sm["b"]), buildOpts(sm["opts"])...); err != nil {
+				panic("harness: merged config source: " + err.Error())
+			}
 		}
 		return cfg
 	}
